@@ -35,8 +35,8 @@ Definition message_classes : list (string * Z * string * option Z) :=
    ("Queued", (125)%Z, "template", (Some (-1)%Z));
    ("PartialMerge", (126)%Z, "template", (Some (0)%Z));
    ("QueueOutOfOrder", (127)%Z, "template", (Some (-1)%Z));
-   ("ResetComplete", (128)%Z, "template", (Some (-1)%Z));
-   ("LossyResetWarning", (129)%Z, "template", (Some (-1)%Z));
+   ("ResetComplete", (128)%Z, "template", (Some (0)%Z));
+   ("LossyResetWarning", (129)%Z, "template", (Some (0)%Z));
    ("IncorrectCommandSyntax", (130)%Z, "template", (Some (-1)%Z));
    ("IncorrectPullRequestNumber", (131)%Z, "template", (Some (-1)%Z));
    ("SourceBranchTooOld", (132)%Z, "template", (Some (-1)%Z));
@@ -157,5 +157,5 @@ Definition noncommand_sites : list (string * list string) :=
    ("UnsupportedTokenType", ["bert_e.bert_e:BertE.handle_token"]);
    ("VersionMismatch", ["bert_e.workflow.gitwaterflow.branches:BranchCascade.validate"]);
    ("WrongDestination", ["bert_e.workflow.gitwaterflow:early_checks"])].
-(* Reactor.init_settings assigns copy(option.default) (true) or option.default itself (false) *)
+(* Reactor.init_settings gives the job its own copy of every mutable default (true) or the default object itself (false) *)
 Definition init_settings_copies : bool := true.
